@@ -3,6 +3,8 @@
 -/
 import TwProofs.Lemmas.LexSpan
 import TwProofs.Lemmas.ErrLinesStmt
+import TwProofs.Lemmas.ParseToks
+import TwProofs.Lemmas.LoadToks
 import TwModel
 
 namespace Tw.C13
@@ -128,7 +130,116 @@ theorem template_render_error_names_a_token_of_the_page (w : World) (t : Templat
   · cases h
   · cases h
 
+/-! ### the lines are lines of the source -/
+
+/-- **the parser never makes a token up**: every token stored in the parsed program (nodes at any
+    depth, recorded inserts, component uses and their slots, the `@use`) is one of the tokens the
+    lexer produced for this source -/
+theorem parsed_tokens_are_tokens_of_the_source (src : Bytes) (base : Nat) (prog : Program)
+    (h : parseSource src base = .ok prog) : ∃ lr, tokenize src = some lr ∧ ∀ t ∈ prog.toks, t ∈ lr.toks :=
+  parseSource_toks src base prog h
+
+/-- where a token of the token list lies: it covers bytes `[a, a + n)` of the input and its error
+    line is 1 + the line feeds before its last byte — or it is the closing EOF, whose line is that
+    of the end of the input -/
+theorem token_of_the_list_line (inp : Bytes) (r : LexResult) (h : tokenize inp = some r) (t : Token) (ht : t ∈ r.toks) :
+    (∃ a n, Covers inp t a n ∧ t.errorLine = 1 + (inp.take (a + n - 1)).count 10) ∨
+      (t.ty = .EOF ∧ t.errorLine = 1 + inp.count 10) := by
+  have hti := tokenize_tiled inp r h
+  generalize r.toks = toks at hti ht
+  generalize (0 : Nat) = a0 at hti
+  induction hti with
+  | eof a e h1 _ _ h4 =>
+    have : t = e := by simpa using ht
+    subst this
+    right
+    refine ⟨h1, ?_⟩
+    unfold posOf at h4
+    have hl : t.pos.endLine = lineOf (inp.take inp.length).reverse := (Prod.mk.inj h4).1
+    unfold Token.errorLine
+    rw [hl, lineOf, List.count_reverse, List.take_length]; omega
+  | tok a a' n x ts _ _ hc _ ih =>
+    rcases List.mem_cons.mp ht with hx | hx
+    · subst hx
+      exact Or.inl ⟨a', n, hc, token_error_line inp t a' n hc⟩
+    · exact ih hx
+
+/-- **the string API, from the source**: a render error (the template parsed, the data converted)
+    carries the line on which a token of the source text ends — `1 +` the number of line feeds
+    before that token's last byte; composed of `render_errors_name_a_token_of_the_loaded_files`
+    (the evaluator takes lines from the tree only), `parsed_tokens_are_tokens_of_the_source` (the
+    tree holds lexer tokens only) and `token_error_line` (the lexer's positions are exact) -/
+theorem string_render_error_names_a_token_of_the_source (custom : List ((VType × Bytes) × Nat)) (src : Bytes)
+    (data : List (Bytes × GoVal)) (prog : Program) (env : Env) (f : Fail)
+    (hp : parseSource src = .ok prog) (hd : envFromMap data = .ok env)
+    (h : evaluateStringPure custom src data = .fail f) :
+    ∃ r t, tokenize src = some r ∧ t ∈ r.toks ∧ f.line = t.errorLine ∧
+      ((∃ a n, Covers src t a n ∧ f.line = 1 + (src.take (a + n - 1)).count 10) ∨ (t.ty = .EOF ∧ f.line = 1 + src.count 10)) := by
+  have hl := string_render_error_names_a_token_of_the_template custom src data prog env f hp hd h
+  obtain ⟨r, hr, hall⟩ := parseSource_lines src 0 prog hp
+  obtain ⟨t, ht, hte⟩ := hall f.line hl
+  refine ⟨r, t, hr, ht, hte, ?_⟩
+  rcases token_of_the_list_line src r hr t ht with ⟨a, n, hc, he⟩ | ⟨h1, h2⟩
+  · exact Or.inl ⟨a, n, hc, by rw [hte]; exact he⟩
+  · exact Or.inr ⟨h1, by rw [hte]; exact h2⟩
+
+/-- in particular the line lies within the source: between 1 and 1 + the number of its line feeds -/
+theorem string_render_error_line_within_source (custom : List ((VType × Bytes) × Nat)) (src : Bytes)
+    (data : List (Bytes × GoVal)) (prog : Program) (env : Env) (f : Fail)
+    (hp : parseSource src = .ok prog) (hd : envFromMap data = .ok env)
+    (h : evaluateStringPure custom src data = .fail f) : 1 ≤ f.line ∧ f.line ≤ 1 + src.count 10 := by
+  obtain ⟨r, t, _, _, _, hcase⟩ := string_render_error_names_a_token_of_the_source custom src data prog env f hp hd h
+  rcases hcase with ⟨a, n, _, he⟩ | ⟨_, he⟩
+  · refine ⟨by omega, ?_⟩
+    rw [he]
+    have : (src.take (a + n - 1)).count 10 ≤ src.count 10 := (List.take_sublist _ _).count_le _
+    omega
+  · omega
+
+/-- a registered page holds tokens of the files of the tree only: its statements, the layout, the
+    bound inserts and the component programs with their slots filled -/
+theorem loaded_tokens_are_tokens_of_the_files (w : World) (o : Option Opt) (t : Template)
+    (h : (newTemplate w o).2 = .ok t) :
+    ∀ x ∈ t, ∀ tk ∈ Stmt.toksL x.2.stmts ++ x.2.ctx.toks, FileTok (configure w o).fs tk :=
+  newTemplate_toks w o t h
+
+/-- **a Template render, from the sources**: a render error of a page of a loaded Template carries
+    the line on which a token of one of the tree's files ends (the page, its layout or one of its
+    components: `1 +` the line feeds before the token's last byte in that file) — composed of
+    `render_errors_name_a_token_of_the_loaded_files`, `loaded_tokens_are_tokens_of_the_files`
+    (loader and parser make no token up) and `token_error_line` -/
+theorem template_render_error_names_a_token_of_a_file (w : World) (o : Option Opt) (t : Template)
+    (hnew : (newTemplate w o).2 = .ok t) (w2 : World) (name : Bytes) (data : List (Bytes × GoVal))
+    (pg : Page) (env : Env) (f : Fail) (hpg : mapGet t name = some pg) (hd : envFromMap data = .ok env)
+    (h : tplString w2 t name data = .fail f) :
+    ∃ q src r tk, readFile (configure w o).fs q = .ok src ∧ tokenize src = some r ∧ tk ∈ r.toks ∧ f.line = tk.errorLine ∧
+      ((∃ a n, Covers src tk a n ∧ f.line = 1 + (src.take (a + n - 1)).count 10) ∨ (tk.ty = .EOF ∧ f.line = 1 + src.count 10)) := by
+  have hl := template_render_error_names_a_token_of_the_page w2 t name data pg env f hpg hd h
+  rw [Stmt.linesL_eq, Ctx.lines_eq, ← List.map_append] at hl
+  obtain ⟨tk, htk, hte⟩ := List.mem_map.mp hl
+  obtain ⟨q, src, r, hq, hr, hm⟩ := newTemplate_toks w o t hnew (name, pg) (mapGet_mem _ _ _ hpg) tk htk
+  refine ⟨q, src, r, tk, hq, hr, hm, hte.symm, ?_⟩
+  rcases token_of_the_list_line src r hr tk hm with ⟨a, n, hc, he⟩ | ⟨h1, h2⟩
+  · exact Or.inl ⟨a, n, hc, by rw [← hte]; exact he⟩
+  · exact Or.inr ⟨h1, by rw [← hte]; exact h2⟩
+
 example : (match evaluateStringPure [] (b "line1\n{{ \"a\nb\" }}\n{{-- c\n --}}{{ nosuch }}") [] with
     | .fail f => f.line == 5 | _ => false) = true := by decide
+
+
+/-- an instance through loader and evaluator: the failing print is in the component file, on its
+    third line (the page's own third line holds nothing that can fail) -/
+def demoFs : Fs :=
+  [ (b "templates", .dir), (b "templates/components", .dir),
+    (b "templates/components/c.tw.html", .file (b "<i>\n@slot\n{{ nosuch }}</i>")),
+    (b "templates/page.tw.html", .file (b "a\n@component(\"~c\")@slot\nx\n\n@end@end\nz")) ]
+
+example :
+    (match newTemplate { fs := demoFs } none with
+      | (w, .ok t) =>
+        (match tplString w t (b "page") [] with
+          | .fail f => f.line == 3
+          | _ => false)
+      | _ => false) = true := by decide +kernel
 
 end Tw.C13
